@@ -670,7 +670,7 @@ func runC10(args []string) {
 		stk.close()
 		_ = os.Remove(filepath.Join(root, "parent.cap"))
 		verifx.Check(os.WriteFile(filepath.Join(base, "state.json"), jb, 0o644))
-		out.Line("cfg name=%s setup=%d", cs.name, len(cs.setup))
+		out.Line("cfg name=%s setup=%d recovery=%d", cs.name, len(cs.setup), c10RecoveryProbe(filepath.Join(root, "probe")))
 		for _, l := range cs.setup {
 			out.Line("setup %s", l)
 		}
@@ -679,25 +679,25 @@ func runC10(args []string) {
 		nm := &c10Names{known: map[string]string{}}
 		work := filepath.Join(root, "w")
 
-		// observe opens a copy after a (possibly killed) child run and prints what is there
-		observe := func(tag string, rawDirFirst bool) {
+		// observe opens a copy after a (possibly killed) child run and reports what is there
+		observe := func(emit func(string, ...any), work, tag string, rawDirFirst bool) {
 			if rawDirFirst {
-				out.Line("%s rawdir %s", tag, c10DirListing(c10Dirs(work), nm))
+				emit("%s rawdir %s", tag, c10DirListing(c10Dirs(work), nm))
 			}
 			s2 := openC10Stack(work)
-			dl := c10DirListing(s2.dirs, nm)
-			out.Line("%s dir %s", tag, dl)
-			out.Line("%s refs %s", tag, c10Refs(s2, nm, c10PartTable(s2.dirs, nm)))
+			emit("%s dir %s", tag, c10DirListing(s2.dirs, nm))
+			emit("%s refs %s", tag, c10Refs(s2, nm, c10PartTable(s2.dirs, nm)))
 			for _, l := range c10Snapshot(ctx, s2.st, nm) {
-				out.Line("%s s %s", tag, strings.ReplaceAll(l, " ", "|"))
+				emit("%s s %s", tag, strings.ReplaceAll(l, " ", "|"))
 			}
 			s2.close()
 		}
+		direct := func(f string, a ...any) { out.Line(f, a...) }
 
 		// ---- the prepared state itself
 		_ = os.RemoveAll(work)
 		c10CopyDir(base, work)
-		observe("pre", false)
+		observe(direct, work, "pre", false)
 		nm.frozen = true
 
 		// ---- the unkilled run: which points, which calls, which final state
@@ -713,24 +713,60 @@ func runC10(args []string) {
 		out.Line("%s", rep.Res)
 		out.Line("calls %s", c10CanonCalls(rep.Calls, c10Dirs(work), nm))
 		out.Line("points %s", joinOr(rep.Points))
-		observe("post", false)
+		observe(direct, work, "post", false)
 
-		// ---- one killed run per reached point
-		for _, p := range rep.Points {
-			_ = os.RemoveAll(work)
-			c10CopyDir(base, work)
-			r2 := c10RunChild(self, work, cs.target, p)
-			if r2 != nil {
-				out.Line("crash %s notkilled", p)
-				continue
+		// ---- one killed run per reached point (independent copies: run a few at a time)
+		results := make([][]string, len(rep.Points))
+		var wg sync.WaitGroup
+		sem := make(chan struct{}, 4)
+		for pi, p := range rep.Points {
+			wg.Add(1)
+			go func(pi int, p string) {
+				defer wg.Done()
+				sem <- struct{}{}
+				defer func() { <-sem }()
+				var lines []string
+				emit := func(f string, a ...any) { lines = append(lines, fmt.Sprintf(f, a...)) }
+				w := filepath.Join(root, fmt.Sprintf("w%d", pi))
+				c10CopyDir(base, w)
+				if r2 := c10RunChild(self, w, cs.target, p); r2 != nil {
+					emit("crash %s notkilled", p)
+				} else {
+					emit("crash %s", p)
+					observe(emit, w, "c", true)
+				}
+				_ = os.RemoveAll(w)
+				results[pi] = lines
+			}(pi, p)
+		}
+		wg.Wait()
+		for _, ls := range results {
+			for _, l := range ls {
+				out.Line("%s", l)
 			}
-			out.Line("crash %s", p)
-			observe("c", true)
 		}
 		out.End()
 		_ = os.RemoveAll(root)
 	}
 	out.Flush()
+}
+
+// c10RecoveryProbe observes whether starting a filesystem part store restores an orphaned
+// `.txbackup.*` file whose target is missing (1) or leaves it alone (0).
+func c10RecoveryProbe(dir string) int {
+	_ = os.RemoveAll(dir)
+	verifx.Check(os.MkdirAll(dir, 0o755))
+	id := verifx.Must(partstore.NewRandomPartId())
+	name := hex.EncodeToString(id.Bytes())
+	verifx.Check(os.WriteFile(filepath.Join(dir, name+".txbackup.01ARZ3NDEKTSV4RRFFQ69G5FAV"), []byte("probe"), 0o644))
+	ps := verifx.NewBasePartStore(nil, "fs", dir)
+	verifx.Check(ps.Start(context.Background()))
+	_, err := os.Stat(filepath.Join(dir, name))
+	_ = os.RemoveAll(dir)
+	if err == nil {
+		return 1
+	}
+	return 0
 }
 
 // c10PartTable names every part id that occurs in the directories (parts, backups, temp files).
